@@ -620,10 +620,14 @@ example :
   `specDetachP`: the two neighbours a leaving node separated, the earlier surviving; the moved text
   node with its new left neighbour if that is text, else with its new right one, the neighbour
   surviving).  Below it is proved for EVERY forest with `Forest.Inv` — no `Forest.Normal` — for
-  `remove`, `detach`, `prepend`, `insert_after`, and for `append` / `insert_before` outside ONE
-  corner (`Spec.selfMerge`), in which the real code loses character data: a recorded finding
-  (`C05:move-changes-character-data`), with the deviation proved (`C05_selfMerge_*`, closed
-  witness).  `element_unwrap`, `element_wrap` and `replace` are proved under `Forest.Normal` only. -/
+  `remove`, `detach` and all four moves.  In ONE corner (`Spec.selfMerge`: the moved text node
+  stands between two text nodes and, once those are merged, already occupies the requested place)
+  xot used to lose character data (finding `C05:move-changes-character-data`): the helper
+  `add_consolidate_text_nodes` took the node itself for its neighbour and merged it "into itself".
+  Since xot c33de0a it takes the node's own sibling there, and `append` / `insert_before` are the
+  specification in that corner too (`C05_pair_append`, `C05_pair_insertBefore`,
+  `C05_selfMerge_append`, `C05_selfMerge_insertBefore`, closed examples below).
+  `element_unwrap`, `element_wrap` and `replace` are proved under `Forest.Normal` only. -/
 
 theorem C05_pair_remove {f : Forest} {n : Nat} (inv : f.Inv) (live : f.isLive n = true) :
     (f.remove n).1 = specRemoveP n f :=
@@ -641,35 +645,39 @@ theorem C05_pair_insertAfter {f : Forest} {r c : Nat} (inv : f.Inv) (hok : (f.in
     (f.insertAfter r c).1 = specMoveP (.after r) c f :=
   insertAfter_pair inv hok
 
-/-- The full-strength statements for `append` and `insert_before` (false of the code, see below). -/
+/-- `append` against the pair reading, full strength (every forest with the invariant, every
+    geometry, the corner `selfMerge` included). -/
+theorem C05_pair_append {f : Forest} {p c : Nat} (inv : f.Inv) (hok : (f.append p c).2 = .ok) :
+    (f.append p c).1 = specMoveP (.lastChildOf p) c f :=
+  append_pair inv hok
+
+/-- `insert_before` against the pair reading, full strength. -/
+theorem C05_pair_insertBefore {f : Forest} {r c : Nat} (inv : f.Inv)
+    (hok : (f.insertBefore r c).2 = .ok) :
+    (f.insertBefore r c).1 = specMoveP (.before r) c f :=
+  insertBefore_pair inv hok
+
+/-- The full-strength statements, as propositions (they used to be false of the code). -/
 def C05_pair_appendStatement : Prop :=
   ∀ (f : Forest) (p c : Nat), f.Inv → (f.append p c).2 = .ok → (f.append p c).1 = specMoveP (.lastChildOf p) c f
 def C05_pair_insertBeforeStatement : Prop :=
   ∀ (f : Forest) (r c : Nat), f.Inv → (f.insertBefore r c).2 = .ok →
     (f.insertBefore r c).1 = specMoveP (.before r) c f
 
-/-- `append` / `insert_before` outside the corner `selfMerge` (a decidable condition on the forest
-    before the call: the moved TEXT node stands between two text nodes and, once those are merged,
-    already occupies the requested place). -/
-theorem C05_pair_append_partial {f : Forest} {p c : Nat} (inv : f.Inv) (hok : (f.append p c).2 = .ok)
-    (hsm : selfMerge f (.lastChildOf p) c = false) :
-    (f.append p c).1 = specMoveP (.lastChildOf p) c f :=
-  append_pair inv hok hsm
+theorem C05_pair_statements_true : C05_pair_appendStatement ∧ C05_pair_insertBeforeStatement :=
+  ⟨fun _ _ _ inv hok => append_pair inv hok, fun _ _ _ inv hok => insertBefore_pair inv hok⟩
 
-theorem C05_pair_insertBefore_partial {f : Forest} {r c : Nat} (inv : f.Inv)
-    (hok : (f.insertBefore r c).2 = .ok) (hsm : selfMerge f (.before r) c = false) :
-    (f.insertBefore r c).1 = specMoveP (.before r) c f :=
-  insertBefore_pair inv hok hsm
-
-/-- In the corner the call succeeds and DESTROYS the moved text node (its data is lost). -/
+/-- In the corner `selfMerge` (the moved TEXT node stands between two text nodes and, once those
+    are merged, already occupies the requested place) the call succeeds and is the specification:
+    the node is merged into the text node its two neighbours have become (xot c33de0a). -/
 theorem C05_selfMerge_append {f : Forest} {p c : Nat} (inv : f.Inv)
     (h : selfMerge f (.lastChildOf p) c = true) :
-    (f.append p c).2 = .ok ∧ (f.append p c).1.isLive c = false :=
+    (f.append p c).2 = .ok ∧ (f.append p c).1 = specMoveP (.lastChildOf p) c f :=
   append_selfMerge inv h
 
 theorem C05_selfMerge_insertBefore {f : Forest} {r c : Nat} (inv : f.Inv)
     (h : selfMerge f (.before r) c = true) :
-    (f.insertBefore r c).2 = .ok ∧ (f.insertBefore r c).1.isLive c = false :=
+    (f.insertBefore r c).2 = .ok ∧ (f.insertBefore r c).1 = specMoveP (.before r) c f :=
   insertBefore_selfMerge inv h
 
 /-- Non-vacuity: a forest with adjacent text nodes on which the pair reading differs from the
@@ -694,40 +702,25 @@ def selfMergeWitness : Forest :=
   { roots := [.node 0 (.element 2) [.node 1 (.text ['a']) [], .node 2 (.text ['b']) [],
       .node 3 (.text ['c']) [], .node 4 (.text ['d']) []]], next := 5, consolidation := true, everOff := true }
 
-/-- `insert_before(d, b)`: `a` and `c` are merged, `b` then already stands before `d`, is taken for
-    its own text neighbour, "merged into itself" and destroyed — the data `b` is lost.  The pair
-    reading gives `acb`, `d`.  Likewise `append(e, b)` on the children `a b c`. -/
-theorem C05_selfmerge_loses_text_witness :
+/-- `insert_before(d, b)`: `a` and `c` are merged, `b` then already stands before `d`; the helper
+    takes `b`'s own previous sibling `ac` and merges `b` into it: `acb`, `d` — the pair reading; no
+    character is lost (before xot c33de0a the result was `ac`, `d`).  Likewise `append(e, b)` on
+    the children `a b c` gives `acb`. -/
+theorem C05_selfmerge_keeps_text_witness :
     selfMergeWitness.inv = true ∧
     (selfMergeWitness.insertBefore 4 2).2 = .ok ∧
     (selfMergeWitness.insertBefore 4 2).1.content =
-      [.node (.element 2) [.node (.text ['a', 'c']) [], .node (.text ['d']) []]] ∧
-    (selfMergeWitness.insertBefore 4 2).1.isLive 2 = false ∧
-    (specMoveP (.before 4) 2 selfMergeWitness).content =
       [.node (.element 2) [.node (.text ['a', 'c', 'b']) [], .node (.text ['d']) []]] ∧
+    (selfMergeWitness.insertBefore 4 2).1.isLive 2 = false ∧
+    (selfMergeWitness.insertBefore 4 2).1 = specMoveP (.before 4) 2 selfMergeWitness ∧
     selfMerge selfMergeWitness (.before 4) 2 = true ∧
     (let g : Forest := { selfMergeWitness with roots := [.node 0 (.element 2) [.node 1 (.text ['a']) [],
         .node 2 (.text ['b']) [], .node 3 (.text ['c']) []]] }
-     (g.append 0 2).2 = .ok ∧ (g.append 0 2).1.content = [.node (.element 2) [.node (.text ['a', 'c']) []]] ∧
+     (g.append 0 2).2 = .ok ∧
+     (g.append 0 2).1.content = [.node (.element 2) [.node (.text ['a', 'c', 'b']) []]] ∧
+     (g.append 0 2).1 = specMoveP (.lastChildOf 0) 2 g ∧
      selfMerge g (.lastChildOf 0) 2 = true) := by
   decide
-
-/-- `<e>abc</e>` as three adjacent text nodes. -/
-def selfMergeWitness2 : Forest :=
-  { roots := [.node 0 (.element 2) [.node 1 (.text ['a']) [], .node 2 (.text ['b']) [],
-      .node 3 (.text ['c']) []]], next := 4, consolidation := true, everOff := true }
-
-/-- The full-strength statements are false of the code. -/
-theorem C05_pair_statements_false : ¬ C05_pair_appendStatement ∧ ¬ C05_pair_insertBeforeStatement := by
-  constructor
-  · intro h
-    have := h selfMergeWitness2 0 2 ((Forest.inv_iff _).1 (by decide)) (by decide)
-    revert this
-    decide
-  · intro h
-    have := h selfMergeWitness 4 2 ((Forest.inv_iff _).1 (by decide)) (by decide)
-    revert this
-    decide
 
 /-! ### The convenience calls: a node creation followed by a move (`Model/Fcreation.lean`)
 
@@ -750,8 +743,7 @@ theorem C05_new_document_with_element {f : Forest} {n : Nat} (inv : f.Inv) (norm
     simp only [Bool.not_true, Bool.false_eq_true, if_false] at hok ⊢
     exact ⟨C05_append_exact (Fcreation.newNode_inv inv _) (Fcreation.newNode_normal norm _) hok, rfl, trivial⟩
 
-/-- … without `Forest.Normal`, against the PAIR reading (the corner `selfMerge` cannot arise:
-    nothing has the fresh document node as its parent). -/
+/-- … without `Forest.Normal`, against the PAIR reading. -/
 theorem C05_pair_new_document_with_element {f : Forest} {n : Nat} (inv : f.Inv)
     (hok : (f.newDocumentWithElement n).2.1 = .ok) :
     (f.newDocumentWithElement n).1 = specMoveP (.lastChildOf f.next) n f.newDocument.1 := by
@@ -761,7 +753,7 @@ theorem C05_pair_new_document_with_element {f : Forest} {n : Nat} (inv : f.Inv)
   | true =>
     rw [he] at hok
     simp only [Bool.not_true, Bool.false_eq_true, if_false] at hok ⊢
-    exact C05_pair_append_partial (Fcreation.newNode_inv inv _) hok (Fcreation.selfMerge_under_new inv _ n)
+    exact C05_pair_append (Fcreation.newNode_inv inv _) hok
 
 /-- `append_text` / `append_element` / `append_comment` / `append_processing_instruction`, by the
     value `v` of the node they create (handle `f.next`). -/
@@ -772,7 +764,7 @@ theorem C05_append_new {f : Forest} {p : Nat} {v : Value} (inv : f.Inv) (norm : 
 
 theorem C05_pair_append_new {f : Forest} {p : Nat} {v : Value} (inv : f.Inv) (hok : (f.appendNew p v).2 = .ok) :
     (f.appendNew p v).1 = specMoveP (.lastChildOf p) f.next (f.newNode v).1 :=
-  C05_pair_append_partial (Fcreation.newNode_inv inv v) hok (Fcreation.selfMerge_new inv v p)
+  C05_pair_append (Fcreation.newNode_inv inv v) hok
 
 theorem C05_append_text {f : Forest} {p : Nat} {s : Str} (inv : f.Inv) (norm : f.Normal)
     (hok : (f.appendText p s).2 = .ok) :
